@@ -32,5 +32,17 @@ pub proof fn ax_exp_zero() ensures rexp(0real) == 1real { admit(); }
 pub proof fn ax_ln_one() ensures rln(1real) == 0real { admit(); }
 pub proof fn ax_atan_zero() ensures ratan(0real) == 0real { admit(); }
 pub proof fn ax_sqrt_sq(x: real) requires x >= 0real ensures rsqrt(x) >= 0real, rsqrt(x) * rsqrt(x) == x { admit(); }
+pub proof fn ax_ln_nonneg(x: real) requires x >= 1real ensures rln(x) >= 0real { admit(); }
+pub proof fn ax_atan_nonneg(x: real) requires x >= 0real ensures ratan(x) >= 0real { admit(); }
 pub proof fn ax_pi_pos() ensures PI() > 0real { admit(); }
 pub proof fn ax_rgas_pos() ensures RGAS() > 0real { admit(); }
+/// derived: the non-negative square root is unique
+pub proof fn lemma_sqrt_unique(a: real, x: real)
+    requires a >= 0real, a * a == x
+    ensures rsqrt(x) == a
+{
+    assert(x >= 0real) by(nonlinear_arith) requires a * a == x;
+    ax_sqrt_sq(x);
+    let s = rsqrt(x);
+    assert(s == a) by(nonlinear_arith) requires s >= 0real, a >= 0real, s * s == a * a;
+}
